@@ -14,8 +14,8 @@ Open Scope nat_scope.
 (* ------------------------------------------------------------------ a query in a quiet world *)
 Lemma existing_rot_some off sp fixed f flt sel : exists l, existing_rot off sp fixed f flt sel = Some l.
 Proof.
-  unfold existing_rot. rewrite !filter_files_total.
-  destruct (sel_plain sel), (sel_gz sel), (sel_rcur sel); (destruct (sel_custom sel); [rewrite filter_files_total|]; cbn [app_opt]; eauto).
+  unfold existing_rot. destruct (sel_custom sel) as [x|]; rewrite ?filter_files_total;
+    [destruct (sel_rcur sel && beq x cur_infix)|]; destruct (sel_plain sel), (sel_gz sel), (sel_rcur sel); cbn [app_opt]; eauto.
 Qed.
 
 Lemma query_quiet s w sel : quiet w -> exists l, query s w sel = (Ok l, w).
